@@ -18,12 +18,21 @@
    evaluated closedness check) complete reachability, monotonicity of the three-valued connectives
    in the information order, completions keep every node at its path, and stability of the
    quantifier-free fragment over the six path predicates (C06_verdict_stable_partial).
-   MISSING for the full partial theorem (formulas with quantifiers outside K_selfrec_open / K_nth_open
-   and without match expressions): the induction over quantifiers (domain of t' = domain of t when no
-   open leaf is a potential match: needs `wf_tree` subtrees only contain labels reachable from their
-   root, with reachb_complete) and consecutive/level/count; with match expressions additionally a
-   completeness lemma for can_extend.  That fragment is carried by the correspondence + search only. *)
-From ISLA Require Import Eval3 EvalFacts GrammarFacts FuzzFacts Eval3Facts Eval3Compl Eval3Stable.
+   PROOF EXTENSION (Logic/Eval3Compl.v, Eval3Stable.v, Eval3Total.v; end of this file) — now FULL for
+   the fragment "tree quantifiers without match expression + before/after/inside/same_position/
+   different_position/direct_child/level + SMT atoms (atom3)", outside K_selfrec_open:
+     C06_verdict_stable_wellscoped_partial   well-scoped formulas (wsb): a definite verdict on t IS the
+                                             verdict on every identity-preserving closed completion
+                                             (conclusion m3_evaluate g t' cst f = Ok v, no premise on t');
+     C06_verdict_stable_quant_partial        any formula of the fragment (qfrag), with the premise that
+                                             the evaluation on t' returns;  _mono_: information order;
+     C06_eval_mono_generic + C06_atom3_mono  abstract atoms / the atom premise proved for atom3.
+   (`_partial` in the names: the statement over ALL formulas is refuted above.)
+   STILL MISSING (correspondence + search only): consecutive, nth with closed earlier leaves, count
+   outside K_count_insert, match expressions (completeness of can_extend), numeric quantifiers; for
+   formulas that are not well-scoped the returns-premise is necessary (UNKNOWN on t short-cuts bodies
+   that raise on t'). *)
+From ISLA Require Import Eval3 EvalFacts GrammarFacts FuzzFacts Eval3Facts Eval3Compl Eval3Stable Eval3Total.
 From Coq Require Import ZArith.
 
 (* ---- refutations of the full statement ---- *)
@@ -278,3 +287,53 @@ Print Assumptions C06_level_check_compl.
 Theorem C06_compl_closed_eq : forall g s s', compl g s s' -> is_openT s = false -> s' = s.
 Proof. exact compl_closed_eq. Qed.
 Print Assumptions C06_compl_closed_eq.
+
+(* ==================================================================== *)
+(* PROOF EXTENSION, part 2 (Logic/Eval3Total.v): the returns-premise is discharged for WELL-SCOPED
+   formulas.  wsb u dom f: f is in the fragment, every predicate call has the arity/kinds of its
+   predicate (two node arguments; level: op, nonterminal, two nodes, op one of EQ GE LE GT LT), every
+   variable argument / in-variable is in scope (dom = the constant, then the enclosing quantified
+   variables), tree arguments and in-trees are the instantiated constant (same id as u).        *)
+(* ==================================================================== *)
+(* on a closed tree the evaluation of a well-scoped formula mentioning the constant returns *)
+Theorem C06_evaluate_closed_returns : forall g u cst f,
+  is_openT u = false -> wsb atom3 u [cst] f = true ->
+  existsb (var_eqb cst) (fvars atom3 afree3 f) = true ->
+  exists r, m3_evaluate g u cst f = Ok r.
+Proof. exact m3_evaluate_returns. Qed.
+Print Assumptions C06_evaluate_closed_returns.
+
+(* THE STABILITY THEOREM in the shape of the full statement (conclusion `m3_evaluate g t' cst f = Ok v`),
+   for well-scoped formulas with tree quantifiers outside K_selfrec_open.  No premise about the
+   evaluation on t' is left.  (`wf_tree g t` of the full statement is not needed.)
+   `_partial` because the full statement (all formulas) is refuted. *)
+Theorem C06_verdict_stable_wellscoped_partial : forall g t t' cst f v,
+  compl g t t' -> is_openT t' = false -> uniq_ids t' -> reach_closedb g = true ->
+  wsb atom3 t' [cst] f = true -> existsb (var_eqb cst) (fvars atom3 afree3 f) = true ->
+  forallb is_nt (qtypes atom3 f) = true -> K_selfrec_open atom3 g t f = false ->
+  m3_evaluate g t cst f = Ok v -> v <> UU -> m3_evaluate g t' cst f = Ok v.
+Proof. exact verdict_stable_quant_ws. Qed.
+Print Assumptions C06_verdict_stable_wellscoped_partial.
+
+Theorem C06_wsb_qfrag : forall A u f dom, wsb A u dom f = true -> qfrag A f = true.
+Proof. exact wsb_qfrag. Qed.
+Print Assumptions C06_wsb_qfrag.
+
+Example C06_wellscoped_nonvacuous :
+  wsb atom3 NTH_t' [W_cst3] QX_f1 = true /\ existsb (var_eqb W_cst3) (fvars atom3 afree3 QX_f1) = true /\
+  wsb atom3 NTH_t' [W_cst3] QX_f2 = true /\ existsb (var_eqb W_cst3) (fvars atom3 afree3 QX_f2) = true.
+Proof. exact verdict_stable_quant_ws_example. Qed.
+Print Assumptions C06_wellscoped_nonvacuous.
+
+(* generic form of the no-raise theorem: abstract atoms whose SMT clause returns *)
+Theorem C06_no_raise_generic :
+  forall (A : Type) (afree : A -> list var) (aopen : A -> bool) (aeval : A -> asg -> res TV)
+         (qmm : var -> path -> option mexpr -> asg -> path -> bool) (reach' : str -> str -> bool)
+         (count_open : tree -> str -> Z -> res TV) (u : tree),
+    is_openT u = false ->
+    (forall x a, exists r, eval_legacy A afree aopen aeval qmm reach' count_open u (FSmt x) a = Ok r) ->
+    forall f dom a, wsb A u dom f = true -> nodes_asg u a ->
+      (forall v, In v dom -> dict_mem a v = true) ->
+      exists r, eval_legacy A afree aopen aeval qmm reach' count_open u f a = Ok r.
+Proof. exact no_raise. Qed.
+Print Assumptions C06_no_raise_generic.
